@@ -264,6 +264,14 @@ func runConcurrent(in Input) lib.Result {
 		slotOf = func(w, j int) int { return kinds[(w*7+j*3+int(in.Seed%3))%3][0] }
 		spanOf = func(w, j int) int { return kinds[(w*7+j*3+int(in.Seed%3))%3][1] }
 	}
+	if in.Labels && !in.ColdStart && !straddle && in.Stream != "delete" {
+		// a sibling series matching the readers' selector shared{foo=bar}, with data outside the rendered range: renders
+		// fan out over two series (a query that selects several series), their answers are unchanged
+		sib, _ := storage.ParseKey("shared{foo=bar,sib=1}")
+		if err := put(st, sib, nslots+5, map[string]uint64{"sib": 4}); err != nil {
+			return lib.Result{Crash: "sibling pre-Put: " + err.Error()}
+		}
+	}
 	if !in.ColdStart {
 		// the shared series exists before anyone reads it
 		if err := put(st, shared, 0, map[string]uint64{"pre": 4}); err != nil {
